@@ -580,7 +580,10 @@ def case(ctx):
         except Exception as e:
             ctx.hist("finalize-exception:%s" % type(e).__name__)
             if outcome in ("ok", "malformed"):
-                raise
+                # after a clean apply or a reported MalformedTransform, cleaning up must work (after an apply exception it is
+                # part of that finding)
+                ctx.fail("finalize:raised:%s:%s:%s@%s" % (label, outcome, type(e).__name__, _where(e.__traceback__)),
+                         "tt.finalize() raised %r" % (e,), {"traceback": traceback.format_exc()[-1500:]})
 
     sig_tail = (label, [o["op"] + ("!" if "refused" in o else "") for o in script], res.kinds, outcome)
     if outcome == "op-exception":
@@ -589,7 +592,16 @@ def case(ctx):
 
     if not applied:
         # ---- abandoned transform: the tree must be exactly as before
-        after = full_state(p, git)
+        try:
+            after = full_state(p, git)
+        except (KeyboardInterrupt, SystemExit):
+            raise
+        except Exception as e:
+            ctx.fail("abandoned:%s:tree-unreadable:%s:%s@%s" % (outcome, label, type(e).__name__, _where(e.__traceback__)),
+                     "the tree could be read before the transform, after %s + finalize reading it raises %r" % (outcome, e),
+                     {"traceback": traceback.format_exc()[-1500:]})
+            ctx.note(sig_tail, nontrivial=False)
+            return
         what, d = state_diff(before, after)
         ctx.count("abandoned_tree_unchanged")
         if outcome == "malformed":
